@@ -175,7 +175,7 @@ def _worker_inner(modname, kind, arg, tier):
         elif kind == "extra":
             res = mod.extra_run(arg, tier)
         elif kind == "replay":
-            res = mod.replay(arg)
+            res = _replay_with_watchdog(mod, arg)
         else:
             raise ValueError(kind)
     except BaseException as e:
@@ -187,6 +187,29 @@ def _worker_inner(modname, kind, arg, tier):
     if isinstance(res, dict) and "wall_s" in res:
         res["wall_s"] = round(time.time() - t0, 3)
     return res
+
+
+class ReplayTimeout(BaseException):
+    """a replay on the real build did not finish within VERIF_REPLAY_TIMEOUT seconds (e.g. changed code that loops or
+    blocks for ever on the replayed input): reported as a replay error, i.e. inconclusive -- never as a pass"""
+
+
+def _replay_with_watchdog(mod, arg):
+    import signal
+    limit = int(os.environ.get("VERIF_REPLAY_TIMEOUT", "600"))
+
+    def on_alarm(signum, frame):
+        raise ReplayTimeout("replay still running after %d s" % limit)
+    try:
+        old = signal.signal(signal.SIGALRM, on_alarm)
+    except ValueError:              # not in the main thread: no watchdog available
+        return mod.replay(arg)
+    signal.alarm(limit)
+    try:
+        return mod.replay(arg)
+    finally:
+        signal.alarm(0)
+        signal.signal(signal.SIGALRM, old)
 
 
 def _cross_check(texts, tlimit_ms=8000):
